@@ -1,2 +1,33 @@
-(* C09 placeholder: statements follow with Model/StackProto.v *)
-From RT Require Import Model.StackTrace.
+(* C09 -- a stale handle can never commit; it is refreshed and its retry succeeds.
+   Statements only.  [c09_ok] looks at every Add that runs undisturbed: through
+   a handle whose view differs from tables.list it returns ErrLockFailure,
+   leaves the directory as it was and refreshes the handle; through an
+   up-to-date handle with the write lock free it commits.
+
+   Proved for every schedule:
+   * [C09_stale_gc]: with "the directory is left unchanged" read as
+     "tables.list unchanged, nothing new, nothing listed removed, no lock or
+     temp file left" (c09_ok_gc: a failed Add's reload may unlink table files
+     that the list no longer names);
+   * [C09_stale_strict]: literally unchanged (c09_ok), under the trace
+     precondition that, at the call, no table the handle holds is both unlisted
+     and still on disk (c09_precond) -- which holds at every quiescent instant.
+   The strict statement without that precondition is FALSE for the code
+   ([C09_strict_refuted]: another handle's compaction paused between its commit
+   and its removes); recorded as known finding C09-gc. *)
+From Coq Require Import List NArith Arith Bool.
+From RT Require Import Model.StackTrace Model.StackProto Proofs.StackInvProofs Proofs.StaleProofs.
+Import ListNotations.
+
+Theorem C09_stale_gc : forall size_oracle attempts tabs scripts sched,
+  init_ok tabs -> Forall (fun s => forallb modelled s = true) scripts -> (1 <= attempts)%nat ->
+  c09_ok_gc (trace_of size_oracle attempts tabs scripts sched) = true.
+Proof. exact c09_gc_all_traces. Qed.
+Print Assumptions C09_stale_gc.
+
+Theorem C09_stale_strict : forall size_oracle attempts tabs scripts sched,
+  init_ok tabs -> Forall (fun s => forallb modelled s = true) scripts -> (1 <= attempts)%nat ->
+  c09_precond (trace_of size_oracle attempts tabs scripts sched) = true ->
+  c09_ok (trace_of size_oracle attempts tabs scripts sched) = true.
+Proof. exact c09_all_traces. Qed.
+Print Assumptions C09_stale_strict.
